@@ -39,13 +39,16 @@ func runC05Corpus(c *fw.Ctx) {
 				c.Count("corpus_newline_skipped_multiline_note", 1) // its bytes are content (property text)
 				continue
 			}
-			c05Judge(c, name, d.r, baseOut, w, doc.ApplyText(d.r, w))
+			w := w
+			c05Judge(c, name, d.r, baseOut, w, func() string { return doc.ApplyText(d.r, w) })
 		}
 		for _, q := range d.quoteRewrites() {
-			c05Judge(c, name, d.r, baseOut, q.w, q.text)
+			q := q
+			c05Judge(c, name, d.r, baseOut, q.w, func() string { return q.text })
 		}
 		for _, q := range d.parenRewrites() {
-			c05Judge(c, name, d.r, baseOut, q.w, q.text)
+			q := q
+			c05Judge(c, name, d.r, baseOut, q.w, func() string { return q.text })
 		}
 	}
 }
